@@ -218,6 +218,15 @@ func (fr *frame) nilCheck(p ssa.Value, addr Term, pos token.Pos) {
 		return // checked when the address was formed / never nil
 	}
 	fr.oblige("nil", exprName(p), Ne(addr, "0"), pos)
+	fr.commaOkCheck(p, addr, pos)
+}
+
+// commaOkCheck: a pointer obtained from a comma-ok type assertion is dereferenced only where ok is known to be true
+// (on the other paths it is the zero value, nil). Needs no annotation: the obligation is the assertion's own ok flag.
+func (fr *frame) commaOkCheck(p ssa.Value, addr Term, pos token.Pos) {
+	if okT, found := fr.fx.commaOk[addr]; found {
+		fr.oblige("commaok", exprName(p), okT, pos)
+	}
 }
 
 func (fr *frame) store(st *State, p ssa.Value, v Value, pos token.Pos) {
@@ -494,6 +503,7 @@ func (fr *frame) block(b *ssa.BasicBlock, st *State, li *loopInfo) {
 		case *ssa.FieldAddr:
 			base := fr.val(x.X)
 			fr.oblige("nil", exprName(x.X), Ne(base.T, "0"), x.Pos())
+			fr.commaOkCheck(x.X, base.T, x.Pos())
 			sT := x.X.Type().(*types.Pointer).Elem()
 			off := fieldOffset(under(sT).(*types.Struct), x.Field)
 			fr.vals[x] = IntV(fx.enc.Def("fa", "Int", Add(base.T, Num(off))), x.Type())
